@@ -39,7 +39,7 @@ theorem determine_ok {ss : List Stmt} {i : Nat} {s s' : Stmt} (h : determine ss 
       dsimp only at h
       split at h
       · cases h
-      · generalize (if rel < i then sumSizes ss rel i else sumSizes ss i rel) = pr at h
+      · generalize (if rel ≤ i then sumSizes ss rel i else sumSizes ss i rel) = pr at h
         obtain ⟨mn, mx⟩ := pr
         dsimp only at h
         have key : ∀ (P Q : Prop) [Decidable P] [Decidable Q],
